@@ -47,7 +47,7 @@ def cases(ctx):
         yield {"kind": "subroutine", "flavour": flav, "instrs": ins}
 
 
-def _check_one(ctx, flav, fobj, m, vals):
+def _check_one(ctx, flav, fobj, m, vals, other=None):
     from netqasm.lang.parsing.text import parse_text_subroutine
     instr = codec.mk_instr(fobj, flav, m, vals)
     text = str(instr)
@@ -61,6 +61,23 @@ def _check_one(ctx, flav, fobj, m, vals):
     p = parsed[0]
     if type(p) is not type(instr) or codec.describe_instr(p) != [m, vals] or p != instr:
         return f"{flav}: printed text {text!r} parses back as {codec.describe_instr(p)}, expected {[m, vals]}"
+    if other is not None:
+        # instructions are mutable (the transpiler retargets branches in place): after its operands were updated
+        # the text printed for the *same object* must describe the updated instruction
+        import dataclasses
+        donor = codec.mk_instr(fobj, flav, m, other)
+        for f in dataclasses.fields(instr):
+            if f.name not in ("id", "mnemonic", "lineno"):
+                setattr(instr, f.name, getattr(donor, f.name))
+        ctx.count("print_after_update_checks")
+        text2 = str(instr)
+        try:
+            parsed2 = parse_text_subroutine(text2, flavour=fobj).instructions
+        except Exception as e:
+            return f"{flav}: text printed after an operand update {text2!r} does not parse: {type(e).__name__}: {e}"
+        if len(parsed2) != 1 or codec.describe_instr(parsed2[0]) != [m, other]:
+            return (f"{flav}: after updating operands to {other} the printed text is {text2!r} "
+                    f"(parses as {[codec.describe_instr(x) for x in parsed2]})")
     return None
 
 
@@ -75,15 +92,17 @@ def run_case(ctx, case):
         pos = tuple(case["pos"]) if case["pos"] else None
         values = [case["base"]] if pos is None else [
             codec.set_leaf(case["base"], pos, v) for v in codec.all_leaf_values(pos[2], True)]
+        prev = None
         for vals in values:
-            err = _check_one(ctx, flav, fobj, m, vals)
+            err = _check_one(ctx, flav, fobj, m, vals, other=prev)
             if err:
-                ctx.fail({"kind": "single", "flavour": flav, "mnemonic": m, "values": vals}, err)
+                ctx.fail({"kind": "single", "flavour": flav, "mnemonic": m, "values": vals, "other": prev}, err)
                 break
+            prev = vals
         ctx.case(case, nontrivial=bool(kinds))
         return
     if case["kind"] == "single":
-        err = _check_one(ctx, flav, fobj, case["mnemonic"], case["values"])
+        err = _check_one(ctx, flav, fobj, case["mnemonic"], case["values"], other=case.get("other"))
         if err:
             ctx.fail(case, err)
         ctx.case(case)
